@@ -111,6 +111,9 @@ func (c *Case) Plan(format string) map[string]*PlanEntry {
 				}
 			case x.Kind == "dir":
 				pe.Mode = 0o755
+				if x.Node != nil { // type: dir with a source directory: mode copied from it, minus the umask
+					pe.Mode = permOf(x.Node.Perm) &^ umask
+				}
 				if fi != nil && fi.Mode != 0 {
 					pe.Mode = fi.Mode & 0o7777
 				}
